@@ -51,7 +51,7 @@ def c06_runs(tier):
 
 def c10_runs(tier):
     mt = [576, 1500] if tier == "thorough" else [1500]
-    return [("main", ["--mode", "c10", "--mtu", str(m), "--wifi", "0", "--a", str(a)]) for m in mt for a in (0, 1, 2)]
+    return [("main", ["--mode", "c10", "--mtu", str(m), "--wifi", "0", "--a", str(a)]) for m in mt for a in (0, 1, 2)] + [("main", ["--mode", "c10flood"])]
 
 
 def c13_runs(tier):
@@ -150,6 +150,11 @@ def c01_runs(tier):
                     runs.append(("san", ["--mode", mode, "--mtu", str(m), "--wifi", str(wifi), "--fill", str(fill), "--part", str(part), "--nparts", str(np_)]))
         runs.append(("san", ["--mode", "esp32", "--mtu", str(m)]))
     runs.append(("cov", ["--mode", "cov", "--mtu", "576"]))
+    for part in range(4 if th else 2):
+        runs.append(("san", ["--mode", "linux2", "--mtu", "9216" if th else "1500", "--fill", "255", "--b", "8" if th else "3", "--part", str(part), "--nparts", str(4 if th else 2)]))
+    if th:
+        for part in range(4):
+            runs.append(("san", ["--mode", "linux2", "--mtu", "576", "--fill", "0", "--b", "8", "--part", str(part), "--nparts", "4"]))
     runs.append(("san", ["--mode", "flood", "--mtu", "576", "--fill", "0"]))
     runs.append(("san", ["--mode", "flood", "--mtu", "576", "--fill", "255", "--wifi", "1"]))
     runs.append(("daemon", ["--mode", "daemon", "--mtu", "1500"]))
@@ -172,7 +177,8 @@ def c18_runs(tier):
 
 def c17_runs(tier):
     th = tier == "thorough"
-    runs = [("plain", ["--mode", "seq", "--mtu", "1500", "--wifi", "0"]), ("plain", ["--mode", "seq", "--mtu", "576", "--wifi", "1"])]
+    runs = [("plain", ["--mode", "seq", "--mtu", "1500", "--wifi", "0"]), ("plain", ["--mode", "seq", "--mtu", "576", "--wifi", "1"]),
+            ("plain", ["--mode", "seq3", "--mtu", "1500", "--wifi", "0"])]
     np1, np2 = 4, 10
     for i in range(np1):
         runs.append(("tsanabi", ["--mode", "conc", "--a", "1", "--depth", "3" if th else "2", "--part", str(i), "--nparts", str(np1)]))
@@ -181,8 +187,8 @@ def c17_runs(tier):
     return runs
 
 
-EMIT = {"main": {"sources": MC + ["checks/emit.c"], "modes": ["c06", "c10"]}}
-OBS = {"main": {"sources": MC + ["checks/obs.c"], "modes": ["c07", "c19", "c19pump", "c02o"]},
+EMIT = {"main": {"sources": MC + ["checks/emit.c"], "modes": ["c06", "c10", "c10flood"]}}
+OBS = {"main": {"sources": MC + ["checks/obs.c"], "modes": ["c07", "c19", "c19pump", "c19multi", "c02o"]},
        "proto": {"sources": MC + ["checks/proto.c"], "modes": ["c19p"]}}
 
 
@@ -191,6 +197,7 @@ def c19_runs(tier):
     runs = [("main", ["--mode", "c19", "--mtu", str(m), "--wifi", "0"]) for m in mt]
     runs += [("proto", ["--mode", "c19p", "--mtu", str(m), "--wifi", str(w)]) for m in mt for w in ((0, 1) if tier == "thorough" else (0,))]
     runs += [("main", ["--mode", "c19pump", "--mtu", str(m), "--wifi", "0"]) for m in (mt if tier == "thorough" else [576, 1500])]
+    runs += [("main", ["--mode", "c19multi", "--mtu", str(m), "--wifi", "0"]) for m in (mt if tier == "thorough" else [1500])]
     return runs
 PROTO = {"main": {"sources": MC + ["checks/proto.c"], "modes": ["c02", "c03", "c09"]}}
 
@@ -203,7 +210,7 @@ PROPS = {
     },
     "C17": {
         "engine": "E3+E6",
-        "builds": {"plain": {"sources": MC + ["checks/c17.c"], "modes": ["seq"]},
+        "builds": {"plain": {"sources": MC + ["checks/c17.c"], "modes": ["seq", "seq3"]},
                    "tsanabi": {"flavour": "tsanabi", "sources": ["mc/world.c", "mc/wire.c", "mc/report.c", "mc/sigma.c", "mc/tsan_hooks.c", "checks/c17.c"], "modes": ["conc"]}},
         "runs": c17_runs, "level": "model_checking", "timeout": {"quick": 1200, "thorough": 3400},
         "technique": "sequential clause: product exploration of (two-interface world, solo world A, solo world B) triples to closure; concurrent clause: preemption-bounded enumeration of all schedules of two interface threads at compiler-inserted memory-access granularity (core built with -fsanitize=thread and linked against harness hooks instead of the TSan runtime), with per-interface solo-trace comparison, allocation ledger and a happens-before-free race detector",
@@ -223,7 +230,7 @@ PROPS = {
     "C01": {
         "engine": "E4",
         "builds": {"san": {"flavour": "san", "sources": SANMC + ["checks/c01.c"], "repo_extra": ["os/esp32/daemon/lltd_esp32.c"],
-                           "defs": ["-I", REPO + "/os/esp32/daemon"], "modes": ["linux", "darwin", "esp32", "flood"]},
+                           "defs": ["-I", REPO + "/os/esp32/daemon"], "modes": ["linux", "darwin", "esp32", "flood", "linux2"]},
                    "cov": {"flavour": "tsanabi", "sources": ["mc/world.c", "mc/wire.c", "mc/report.c", "mc/sigma.c", "mc/darwin.c", "mc/tsan_hooks.c", "checks/cov.c"],
                            "repo_extra": ["os/esp32/daemon/lltd_esp32.c"], "defs": ["-I", REPO + "/os/esp32/daemon"], "modes": ["cov"]},
                    "daemon": {"flavour": "san", "sources": ["mc/report.c", "mc/forkrun.c", "mc/wire.c", "checks/c01_daemon.c"],
